@@ -55,6 +55,9 @@ def make_model(kind, dim):
         ps = [elfi.Prior(BoxPrior, 0.3, 1.0, model=m, name='t%d' % i) for i in range(dim)]
     elif kind == 'uniform':
         ps = [elfi.Prior('uniform', -1, 3, model=m, name='t%d' % i) for i in range(dim)]
+    elif kind == 'scales':
+        # two parameters on very different scales (a rate in 1/1000 units next to a count): population variances 1e9 apart
+        ps = [elfi.Prior('uniform', 0, 1000, model=m, name='t0'), elfi.Prior('uniform', 0, 0.05, model=m, name='t1')]
     elif kind == 'normal':
         ps = [elfi.Prior('norm', 0.5, 1.5, model=m, name='t%d' % i) for i in range(dim)]
     elif kind == 'hier-scale':
@@ -66,6 +69,8 @@ def make_model(kind, dim):
         ps = [t0, elfi.Prior('norm', t0, 1, model=m, name='t1')][:max(dim, 2)]
 
     def sim(*p, batch_size=1, random_state=None):
+        if kind == 'scales':
+            return (p[0] / 1000 + 20 * p[1]) / 2 + 0.5 * random_state.randn(batch_size)
         return sum(p) / len(p) + 0.5 * random_state.randn(batch_size)
 
     Y = elfi.Simulator(sim, *ps, model=m, name='Y', observed=np.array([0.8]))
@@ -80,6 +85,8 @@ def prior_logpdf(kind, theta):
         return np.sum(ss.uniform.logpdf(theta, 0.3, 1.0), axis=1)
     if kind == 'uniform':
         return np.sum(ss.uniform.logpdf(theta, -1, 3), axis=1)
+    if kind == 'scales':
+        return ss.uniform.logpdf(theta[:, 0], 0, 1000) + ss.uniform.logpdf(theta[:, 1], 0, 0.05)
     if kind == 'normal':
         return np.sum(ss.norm.logpdf(theta, 0.5, 1.5), axis=1)
     if kind == 'hier-scale':
@@ -99,8 +106,8 @@ def gm_logpdf(theta, means, cov, w):
 
 
 def gen_case(rng):
-    kind = rng.choice(['uniform', 'normal', 'hier', 'hier-scale', 'custom'])
-    dim = 2 if kind.startswith('hier') else rng.randint(1, 2)
+    kind = rng.choice(['uniform', 'normal', 'hier', 'hier-scale', 'custom', 'scales'])
+    dim = 2 if kind.startswith('hier') or kind == 'scales' else rng.randint(1, 2)
     calls = []
     for _ in range(rng.choice([1, 1, 2])):
         if rng.random() < .5:
@@ -260,6 +267,8 @@ def process(ctx, n):
                 case.update(prior='hier-scale', dim=2)
             else:
                 case.update(prior='custom', dim=1 + i % 2)         # a user-written bounded prior class with `pdf` only
+        elif i == len(forced) + 4:               # parameters on scales 1e4.5 apart: every population's covariance, every weight
+            case.update(prior='scales', dim=2, calls=[dict(quantiles=[0.5, 0.5, 0.5])])
         elif i == len(forced) + 3:               # first-round budget barely above n with a batch size that does not divide it
             case.update(n=10, b=7, calls=[dict(quantiles=[0.9, 0.5])])
         elif i < len(forced) + 3:                # unit weights, population size a power of two, dyadic quantile: the cumulative
